@@ -28,6 +28,8 @@ type RunResult struct {
 	Steps      int               // scheduler steps (the only notion of simulated time)
 	FP         uint64            // fingerprint of the run's event trace
 	NonTrivial bool              // by the engine's stated rule
+	Distinct   int               // fault engines: number of distinct non-trivial cases in this run (0: the run itself is the case)
+	Exhaustive bool              // the run enumerated its finite fault space completely
 	Stats      map[string]int    // faults fired, probes hit, policies used, ...
 	States     map[string]bool   // abstract states visited
 	Sample     map[string]any    // a compact description of the case (for evidence samples)
@@ -44,6 +46,9 @@ type Run struct {
 	Tier string
 	Res  *RunResult
 	fp   fp
+	// onlyOracles, when set, restricts which oracles may raise an alarm in this run (the others are counted).
+	onlyOracles map[string]bool
+	otherFailed bool
 }
 
 func newRun(t *testing.T, c *Chooser, prop, tier string) *Run {
@@ -55,6 +60,11 @@ func (r *Run) thorough() bool { return r.Tier == "thorough" }
 
 // violate records a violation of the run's property.
 func (r *Run) violate(oracle, discriminator, detail string) {
+	if r.onlyOracles != nil && !r.onlyOracles[oracle] {
+		r.Res.Stats["ignored_other_oracle_"+oracle]++
+		r.otherFailed = true
+		return
+	}
 	if len(r.Res.Violations) >= 8 {
 		return
 	}
@@ -65,7 +75,7 @@ func (r *Run) violate(oracle, discriminator, detail string) {
 		Property: r.Prop, Oracle: oracle, Sig: r.Prop + "/" + oracle + "/" + discriminator, Detail: detail})
 }
 
-func (r *Run) failed() bool { return len(r.Res.Violations) > 0 }
+func (r *Run) failed() bool { return len(r.Res.Violations) > 0 || r.otherFailed }
 
 func (r *Run) stat(name string, n int) { r.Res.Stats[name] += n }
 
